@@ -65,6 +65,7 @@ func init() {
 		return harnessSpec{Name: name, Module: "harness", Quick: q, Thorough: t, Covers: covers, Xval: xv, Desc: desc}
 	}
 	noAs2 := func(m map[string]int) map[string]int { m["as2"] = 0; return m }
+	auxnil := func(m map[string]int) map[string]int { m["auxnil"] = 1; return m }
 	histCov := []string{"built", "history_done"}
 	buildCov := []string{"built", "build_failed", "model_valid"}
 	properties = append(properties,
@@ -72,6 +73,7 @@ func init() {
 			h("cont.H_Hist", hist(0, 2, 3, 1, 2), hist(0, 2, 4, 2, 2), histCov, 30, histDesc),
 			h("cont.H_Hist", hist(2, 2, 3, 0, 1), hist(2, 2, 4, 1, 2), histCov, 0, histDesc),
 			h("cont.H_Hist", hist(1, 2, 2, 0, 2), hist(1, 3, 3, 1, 2), histCov, 0, histDesc),
+			h("cont.H_Hist", auxnil(hist(4, 2, 3, 0, 2)), auxnil(hist(4, 2, 4, 1, 2)), histCov, 0, histDesc+"; multi-output forms, with a symbolic mask of multi-return constructors whose second output is a nil pointer (a value like any other: stored once, handed out as such)"),
 			h("cont.H_Instances", map[string]int{"order_schemes": 2}, map[string]int{"order_schemes": 4}, []string{"replaced", "resolved"}, 20, "2..3 values of ONE Go type registered as instances under symbolic identities (unkeyed, distinct names, members of one group), optionally one removed and replaced by a new value before Build; every identity resolved twice from the provider, a scope and a nested scope and injected into a scoped consumer (keyed fields and a group field): always exactly the value registered for it, group members in registration order, a removed value never again"),
 		}},
 		propertySpec{ID: "C02", Harnesses: []harnessSpec{
@@ -86,7 +88,7 @@ func init() {
 			h("cont.H_Hist", noAs2(hist(0, 2, 3, 1, 1)), noAs2(hist(0, 2, 4, 2, 1)), histCov, 30, histDesc),
 			h("cont.H_Hist", noAs2(hist(1, 3, 2, 0, 1)), noAs2(hist(1, 3, 4, 1, 1)), histCov, 0, histDesc),
 			h("cont.H_Hist", noAs2(hist(2, 2, 2, 0, 1)), noAs2(hist(2, 2, 4, 1, 1)), histCov, 0, histDesc),
-			h("cont.H_Hist", noAs2(hist(4, 2, 3, 1, 1)), noAs2(hist(4, 2, 4, 2, 1)), histCov, 20, histDesc),
+			h("cont.H_Hist", auxnil(noAs2(hist(4, 2, 3, 1, 1))), auxnil(noAs2(hist(4, 2, 4, 2, 1))), histCov, 20, histDesc),
 			h("cont.H_FuncKinds", map[string]int{"order_schemes": 1}, map[string]int{"order_schemes": 2}, []string{"resolved"}, 20, "two registrations under two names whose constructors are function values of one kind {top-level functions, closures of one //go:noinline factory, method values of one method, two generic instantiations, reflect.MakeFunc functions, closures consuming a MakeFunc-built dependency of another signature, one generic instantiation twice, constructors whose parameter objects are two function-local types of the same name with differently tagged fields} x lifetime x registration order: each identity must be produced by exactly the function value registered for it"),
 		}},
 		propertySpec{ID: "C07", Harnesses: []harnessSpec{
@@ -139,11 +141,12 @@ func init() {
 	const concDesc = "world shape symbolic {S0(S1,S2) or S0(Scope,S1); the same plus a scoped initializer taking S0, so that scope creation runs user code; S0 consuming a value group whose members are registrations 1 and 2; S0 from a multi-return constructor}; two harness goroutines x `ops` operations each from {resolve in shared scope / child scope / provider, CreateScope on scope / provider, Close of scope / provider, cancel of the scope's context}; constructors and Close methods yield; every context switch at those points and at blocking points is a solver-enumerated choice (G1 granularity); no panic, no deadlock (VM detects all-blocked), documented errors only, scoped identity, close counters, goroutine count"
 	const cbDesc = "a Close (of the resolving scope, its parent, or the provider) lands inside a user callback of an in-flight Get / Resolve / CreateScope - literally: the constructor or initializer calls Close; the operation must return a value or a disposed error, never panic, and nothing may leak"
 	const closedDesc = "scope tree of depth 3 plus a sibling; one closing event (Close of any node, or cancellation of the context given to CreateScope, watcher goroutines run to quiescence); afterwards every operation on every node of the closed subtree must report the disposed error and nodes outside keep working"
-	const relDesc = "N create-(nest)-use-close cycles (close via the scope, via its outer scope, or by cancelling the caller's context; nil / value / cancellable caller contexts; scoped or transient service; optional scoped initializer, optionally failing at a symbolic invocation); after each cycle: goroutine count back to baseline, scope context cancelled, scope and instances unreachable from the provider (VM heap walk through unexported fields; natively weak pointers + GC), from the parent scope and from the caller's context; cells reachable from the provider equal after every cycle"
+	const relDesc = "N create-(nest)-use-close cycles (close via the scope, via its outer scope, or by cancelling the caller's context; nil / value / cancellable caller contexts; scoped or transient service; optional scoped initializer, optionally failing at a symbolic invocation; nested scope with a nil context or a context of its own; closeerr=1: Close methods of the scope's instances return errors); after each cycle: goroutine count back to baseline, scope context cancelled, scope and instances unreachable from the provider (VM heap walk through unexported fields; natively weak pointers + GC), from the parent scope and from the caller's context; cells reachable from the provider equal after every cycle"
 	properties = append(properties,
 		propertySpec{ID: "C14", Harnesses: []harnessSpec{
 			h("cont.H_Release", map[string]int{"cycles": 2, "faults": 0, "order_schemes": 2}, map[string]int{"cycles": 3, "faults": 0, "order_schemes": 2}, []string{"cycle_closed"}, 10, relDesc),
 			h("cont.H_Release", map[string]int{"cycles": 2, "faults": 1, "order_schemes": 1}, map[string]int{"cycles": 3, "faults": 1, "order_schemes": 2}, []string{"cycle_closed", "creation_failed"}, 10, relDesc),
+			h("cont.H_Release", map[string]int{"cycles": 2, "faults": 0, "closeerr": 1, "order_schemes": 1}, map[string]int{"cycles": 3, "faults": 0, "closeerr": 1, "order_schemes": 2}, []string{"cycle_closed"}, 10, relDesc),
 			h("cont.H_ReleaseChild", map[string]int{"cycles": 3, "order_schemes": 2}, map[string]int{"cycles": 4, "order_schemes": 2}, []string{"child_closed"}, 10, relDesc),
 		}},
 	)
